@@ -13,9 +13,9 @@
    Scope:    part 1: the boot sector / geometry.  part 2 (theorems C06_image_...): the image-level clauses - boot-sector
              copies agree, FAT contents, root directory empty apart from the label, free space, FS-info, frame, no panic -
              for EVERY request of the builder, every 32-bit sector count and every initial device content.
-             One clause of the property is refuted at the very top of the FAT32 range (C06_image_fsinfo_count_refuted):
-             on a volume with more than 0x0FFFFFF0 - 2 clusters (the 6 largest counts) the clusters 0x0FFFFFF0.. are
-             marked Bad by format_fat while the FS-info sector counts them as free. *)
+             At the very top of the FAT32 range (more than 0x0FFFFFF0 - 2 clusters, the 6 largest counts) format_fat marks
+             the clusters 0x0FFFFFF0.. Bad; the FS-info count excludes them (fix 9c17e57 of format_volume; before it the
+             sector counted them as free). *)
 From Coq Require Import NArith List.
 From FatVerif Require Import Model.Base Model.Slot Model.Table Spec.Image Model.Fat Model.Format Spec.FormatSpec
   Model.FormatImage Spec.FormatImageSpec Proofs.TableProofs Proofs.FatProofs Proofs.FormatProofs Proofs.FormatImageProofs
@@ -217,41 +217,41 @@ Theorem C06_image_fat1216_small : forall o ts bs t, builder_range o -> ts < 4294
 Proof. exact small_fat_entries. Qed.
 
 (* d. free space, counted over the table itself = all clusters, minus the root cluster on FAT32, minus the clusters in
-      the BAD range (bad_range_clusters total = total + 2 - 0x0FFFFFF0, i.e. 0 up to 268435438 clusters); the FS-info
-      sector carries the count total - 1, the hint 3 (a data cluster) and its signatures, zero padded to the sector end *)
+      the BAD range (bad_range_clusters total = total + 2 - 0x0FFFFFF0, i.e. 0 up to 268435438 clusters, at most 6); the
+      FS-info sector carries exactly this count, the hint 3 (a data cluster) and its signatures, zero padded to the
+      sector end *)
 Theorem C06_image_free_space : forall o ts im0 bs t im, builder_range o -> ts < 4294967296 -> bytes_ok im0 ->
   format_boot_sector_validated o ts = Ok (bs, t) -> format_image o ts im0 = Ok im ->
   let b := fbs_bpb bs in
   let total := sp_clusters b in
-  count_spec fstore (val_ft (to_fat_type t)) (fi_fat_store im b) 2 (N.to_nat total) =
-    (if sp_is32 t then total - 1 else total) - bad_range_clusters total /\
+  let free := count_spec fstore (val_ft (to_fat_type t)) (fi_fat_store im b) 2 (N.to_nat total) in
+  free = (if sp_is32 t then total - 1 else total) - bad_range_clusters total /\
   (t <> Format.Fat32 -> bad_range_clusters total = 0) /\
   (t = Format.Fat32 ->
-     img_read im (fi_fsinfo_pos b) 512 = fsinfo_bytes (total - 1) 3 /\
+     img_read im (fi_fsinfo_pos b) 512 = fsinfo_bytes free 3 /\
      (forall x, 512 <= x < fb_bytes_per_sector b -> img_get im (fi_fsinfo_pos b + x) = 0) /\
-     img_u32 im (fi_fsinfo_pos b + 488) = total - 1 /\ img_u32 im (fi_fsinfo_pos b + 492) = 3 /\ 3 < total + 2).
+     img_u32 im (fi_fsinfo_pos b + 488) = free /\ img_u32 im (fi_fsinfo_pos b + 492) = 3 /\ 3 < total + 2).
 Proof. exact image_free_space. Qed.
 
-(* the FS-info count is the table's count, except in the class "FAT32 volume reaching the BAD range" ... *)
+(* in particular: the FS-info count is the table's count on every FAT32 volume ... *)
 Theorem C06_image_fsinfo_count_exact : forall o ts im0 bs im, builder_range o -> ts < 4294967296 -> bytes_ok im0 ->
   format_boot_sector_validated o ts = Ok (bs, Format.Fat32) -> format_image o ts im0 = Ok im ->
-  sp_clusters (fbs_bpb bs) + 2 <= 268435440 ->
   img_u32 im (fi_fsinfo_pos (fbs_bpb bs) + 488) =
     count_spec fstore val32 (fi_fat_store im (fbs_bpb bs)) 2 (N.to_nat (sp_clusters (fbs_bpb bs))).
 Proof. exact image_fsinfo_count_exact. Qed.
 
-(* ... where it is refuted: 270532604 sectors of 512 bytes, 512-byte clusters, one FAT, forced FAT32 is accepted with
-   268435444 clusters; clusters 0x0FFFFFF0..0x0FFFFFF5 are Bad, the table has 268435437 free entries, FS-info says
-   268435443 *)
-Theorem C06_image_fsinfo_count_refuted :
-  exists o ts bs, builder_range o /\ ts < 4294967296 /\ format_boot_sector_validated o ts = Ok (bs, Format.Fat32) /\
-    sp_clusters (fbs_bpb bs) = 268435444 /\
+(* ... including the largest one (270532604 sectors of 512 bytes, 512-byte clusters, one FAT: 268435444 clusters, the 6
+   clusters 0x0FFFFFF0..0x0FFFFFF5 are Bad, FS-info and table both say 268435437; before the fix of format_volume
+   (free_cluster_count = total - 1) the FS-info sector said 268435443) *)
+Theorem C06_image_bad_range_volume_counts :
+  exists bs, format_boot_sector_validated bad_range_request 270532604 = Ok (bs, Format.Fat32) /\
+    sp_clusters (fbs_bpb bs) = 268435444 /\ bad_range_clusters (sp_clusters (fbs_bpb bs)) = 6 /\
     forall im0, bytes_ok im0 ->
-      exists im, format_image o ts im0 = Ok im /\
-        img_u32 im (fi_fsinfo_pos (fbs_bpb bs) + 488) = 268435443 /\
+      exists im, format_image bad_range_request 270532604 im0 = Ok im /\
+        img_u32 im (fi_fsinfo_pos (fbs_bpb bs) + 488) = 268435437 /\
         count_spec fstore val32 (fi_fat_store im (fbs_bpb bs)) 2 (N.to_nat (sp_clusters (fbs_bpb bs))) = 268435437 /\
         (forall x, 268435440 <= x < 268435446 -> val32 (fi_fat_store im (fbs_bpb bs)) x = Bad).
-Proof. exact image_fsinfo_count_refuted. Qed.
+Proof. exact bad_range_volume_counts. Qed.
 
 (* f. the writes never panic: format_volume as a whole succeeds exactly when the sizing/validation step accepts, and
       fails only with InvalidInput (before the first write) *)
@@ -263,8 +263,8 @@ Proof. exact image_total. Qed.
 
 (* g. tie to the independent decoder (Spec/Abs.v, written from the FAT specification): the image decodes to the geometry
       of its boot sector - in particular to the cluster count and FAT width of part 1 - and to the EMPTY volume: no root
-      entry, no decode issue, the label, the root chain [2] on FAT32, FS-info words total-1 / 3, the decoder's own count
-      of free clusters, and no well-formedness issue of Spec/Wf.v (no lost cluster, cross link, bad chain, ...) for any
+      entry, no decode issue, the label, the root chain [2] on FAT32, FS-info free word = the decoder's own count of free
+      clusters (hint 3), and no well-formedness issue of Spec/Wf.v (no lost cluster, cross link, bad chain, ...) for any
       case folding *)
 Theorem C06_image_decodes_empty : forall o ts im0 bs t im fold, builder_range o -> ts < 4294967296 -> bytes_ok im0 ->
   format_boot_sector_validated o ts = Ok (bs, t) -> format_image o ts im0 = Ok im ->
@@ -275,7 +275,7 @@ Theorem C06_image_decodes_empty : forall o ts im0 bs t im fold, builder_range o 
   Abs.g_clusters (geom_of b) = total /\ Abs.g_bits (geom_of b) = bits_per_fat_entry t /\
   Abs.v_root v = [] /\ Abs.v_root_issues v = [] /\ Abs.v_labels v = expected_labels o /\
   Abs.v_root_chain v = (if sp_is32 t then Some [2] else None) /\
-  (t = Format.Fat32 -> Abs.v_fsinfo_free v = total - 1 /\ Abs.v_fsinfo_next v = 3) /\
+  (t = Format.Fat32 -> Abs.v_fsinfo_free v = Abs.count_free (Abs.parse_geom im) im /\ Abs.v_fsinfo_next v = 3) /\
   Abs.count_free (Abs.parse_geom im) im = (if sp_is32 t then total - 1 else total) - bad_range_clusters total /\
   Wf.wf_issues fold im = [].
 Proof. exact image_decodes_empty. Qed.
@@ -336,6 +336,6 @@ Print Assumptions C06_image_free_space.
 Print Assumptions C06_image_fat_values_small.
 Print Assumptions C06_image_fat1216_small.
 Print Assumptions C06_image_fsinfo_count_exact.
-Print Assumptions C06_image_fsinfo_count_refuted.
+Print Assumptions C06_image_bad_range_volume_counts.
 Print Assumptions C06_image_total.
 Print Assumptions C06_image_decodes_empty.
